@@ -6,6 +6,7 @@ import (
 	"fmt"
 	"go/ast"
 	"go/token"
+	"sort"
 	"strings"
 )
 
@@ -245,5 +246,64 @@ func storeGenFacts() {
 		storeLeanPairs(storeTypedConsts(ordFiles, ord, "order", "ChannelConfirmationConstraints"), true))
 	l.p("def nodeTiers : List (String × Nat) := %s", storeLeanPairs(storeTypedConsts(ordFiles, ord, "order", "NodeTier"), true))
 	l.p("def legacyLeaseDurationBucket : Nat := %s", intConst(ord, "order", "LegacyLeaseDurationBucket"))
+	// 5. transaction discipline of the read methods: bbolt hands out slices into its memory map that are only
+	// valid inside the transaction, so every decode call of a *DB method has to sit inside a function literal
+	// (the View/Update closure or a callback invoked from it), never in the method body itself.
+	decodeFns := map[string]bool{
+		"DeserializeOrder": true, "deserializeOrderTlvData": true, "deserializeAccount": true,
+		"deserializeAccountTlvData": true, "deserializeLocalBatchSnapshot": true, "ReadElement": true,
+		"ReadElements": true, "readAccount": true, "fetchOrderTX": true, "readSidecar": true,
+		"readBidTemplate": true, "fetchLocalBatchSnapshot": true, "fetchPendingBatchSnapshot": true,
+		"sidecar.DeserializeTicket": true, "lnwire.ReadElement": true, "readAdditionalValue": true,
+		"bytes.NewReader": true,
+	}
+	var viewMethods []string
+	var outside [][2]string
+	for _, f := range files {
+		for _, d := range f.Decls {
+			fd, ok := d.(*ast.FuncDecl)
+			if !ok || fd.Recv == nil || fd.Body == nil || len(fd.Recv.List) != 1 {
+				continue
+			}
+			if exprString(fd.Recv.List[0].Type) != "*DB" {
+				continue
+			}
+			opensTx := false
+			var walk func(n ast.Node, inLit bool)
+			walk = func(n ast.Node, inLit bool) {
+				ast.Inspect(n, func(m ast.Node) bool {
+					switch x := m.(type) {
+					case *ast.FuncLit:
+						if m != n {
+							walk(x.Body, true)
+							return false
+						}
+					case *ast.CallExpr:
+						name := exprString(x.Fun)
+						if name == "db.View" || name == "db.Update" {
+							opensTx = true
+						}
+						if decodeFns[name] && !inLit {
+							outside = append(outside, [2]string{fd.Name.Name, name})
+						}
+					}
+					return true
+				})
+			}
+			walk(fd.Body, false)
+			if opensTx {
+				viewMethods = append(viewMethods, fd.Name.Name)
+			}
+		}
+	}
+	sort.Strings(viewMethods)
+	if len(viewMethods) == 0 {
+		fail("no *DB method opening a transaction found")
+	}
+	l.p("/-- exported/unexported `*DB` methods of clientdb that open a bbolt transaction (`db.View` / `db.Update`) -/")
+	l.p("def dbTxMethods : List String := %s", leanStrList(viewMethods))
+	l.p("/-- (method, callee): decode calls of `*DB` methods that are NOT inside a function literal, i.e. that run")
+	l.p("after the transaction closure returned, on slices bbolt no longer keeps valid -/")
+	l.p("def decodeOutsideTx : List (String × String) := %s", storeLeanPairs(outside, false))
 	l.p("end Pool.Gen.Store")
 }
